@@ -178,3 +178,94 @@ Example C03_example_rebuild :
   hier_eqb (amg_rebuild (@galerkin QcS) (amg_rebuild (@galerkin QcS) exH M') exM) exH = true /\
   hier_eqb (amg_rebuild (@galerkin QcS) exH M') exH = false.
 Proof. vm_compute. auto. Qed.
+
+(* ------------------------------------------------------------------ *)
+(* Block value types and coarsening wrappers (tie: tools/props/amg_block.py).  The implementation's
+   hierarchy is dumped expanded to scalar CRS and the statement of this property is evaluated on the
+   dump by the extracted oracles of AmgBlock.v.  T6: the oracles DECIDE the statement (any Scalar
+   with decidable equality); T7: the model's own coarse operators pass them (commutative ring). *)
+From Amgcl Require Import AmgBlock AmgBlockProofs.
+
+Theorem C03_galerkin_oracle_decides {S : Scalar} (Seqb : seqb_spec S) sc (A P R An : crs S) :
+  galerkin_spec_ok sc A P R An = true <->
+  nrows An = nrows R /\ ncols An = ncols P /\
+  forall i j, i < nrows R -> j < ncols P ->
+    mget An i j = scaled_entry sc (triple_entry A P R i j).
+Proof. exact (galerkin_spec_ok_iff Seqb sc A P R An). Qed.
+Print Assumptions C03_galerkin_oracle_decides.
+
+Theorem C03_adjoint_oracle_decides {S : Scalar} (Seqb : seqb_spec S) (P R : crs S) :
+  adjoint_spec_ok P R = true <->
+  nrows R = ncols P /\ ncols R = nrows P /\
+  forall i j, i < nrows P -> j < ncols P -> mget R j i = sadj (mget P i j).
+Proof. exact (adjoint_spec_ok_iff Seqb P R). Qed.
+Print Assumptions C03_adjoint_oracle_decides.
+
+(* an accepted dump: every level but the last has transfer operators of fitting shapes, stored
+   sorted without duplicates, more than coarse_enough rows, R = adjoint P (when promised), and the
+   next matrix is (R (A P)) [* s] entry by entry (or, for the hidden direct-solver level, has at
+   most coarse_enough rows) *)
+Theorem C03_dump_oracle_adjacent {S : Scalar} (Seqb : seqb_spec S) ce dc adj sc (ds : list (@dlevel S)) :
+  dump_ok ce dc adj sc ds = true ->
+  forall n d next, nth_error ds n = Some d -> nth_error ds (Datatypes.S n) = Some next ->
+  exists A P R, d = DMid A P R /\
+    stored_ok A = true /\ stored_ok P = true /\ stored_ok R = true /\
+    ncols A = nrows A /\ nrows P = nrows A /\ ncols R = nrows A /\ nrows R = ncols P /\
+    ce < nrows A /\
+    (adj = true -> forall i j, i < nrows P -> j < ncols P -> mget R j i = sadj (mget P i j)) /\
+    match dl_A next with
+    | Some An => nrows An = nrows R /\ ncols An = ncols P /\
+                 forall i j, i < nrows R -> j < ncols P ->
+                   mget An i j = scaled_entry sc (triple_entry A P R i j)
+    | None => ncols P <= ce
+    end.
+Proof. exact (dump_ok_adjacent Seqb ce dc adj sc ds). Qed.
+Print Assumptions C03_dump_oracle_adjacent.
+
+Theorem C03_dump_oracle_last {S : Scalar} ce dc adj sc (ds : list (@dlevel S)) :
+  dump_ok ce dc adj sc ds = true ->
+  match last ds (DSolve None) with
+  | DMid _ _ _ => False
+  | DLast A => nrows A <= ce -> dc = false
+  | DSolve o => dc = true /\ match o with Some A => nrows A <= ce | None => True end
+  end.
+Proof. exact (dump_ok_last ce dc adj sc ds). Qed.
+Print Assumptions C03_dump_oracle_last.
+
+Theorem C03_decrease_oracle_decides {S : Scalar} (ds : list (@dlevel S)) :
+  decrease_ok ds = true <-> forall A P R, In (DMid A P R) ds -> ncols P < nrows A.
+Proof. exact (decrease_ok_iff ds). Qed.
+Print Assumptions C03_decrease_oracle_decides.
+
+Theorem C03_galerkin_oracle_accepts_model {S : Scalar} (Srt : Sring S) (Seqb : seqb_spec S) sc (A P R : crs S) :
+  wf A = true -> wf R = true ->
+  galerkin_spec_ok sc A P R (sort_rows (coarse_op_of sc A P R)) = true.
+Proof. exact (galerkin_spec_ok_model Srt Seqb sc A P R). Qed.
+Print Assumptions C03_galerkin_oracle_accepts_model.
+
+Theorem C03_chain_passes_galerkin_oracle {S : Scalar} (Srt : Sring S) (Seqb : seqb_spec S) sc (ls : list (@ldesc S)) :
+  chain (coarse_op_of sc) ls ->
+  forall n A P R next, nth_error ls n = Some (LMid A P R) -> nth_error ls (Datatypes.S n) = Some next ->
+  wf A = true -> wf R = true ->
+  galerkin_spec_ok sc A P R (ld_A next) = true.
+Proof. exact (chain_galerkin_spec_ok Srt Seqb sc ls). Qed.
+Print Assumptions C03_chain_passes_galerkin_oracle.
+
+Theorem C03_transpose_passes_adjoint_oracle {S : Scalar} (Srt : Sring S) (Seqb : seqb_spec S) (P : crs S) :
+  (forall a b : S, sadj (a + b) = sadj a + sadj b) -> sadj (@s0 S) = s0 ->
+  adjoint_spec_ok P (transpose P) = true.
+Proof. exact (adjoint_spec_ok_transpose Srt Seqb P). Qed.
+Print Assumptions C03_transpose_passes_adjoint_oracle.
+
+Theorem C03_galerkin_oracle_accepts_model_Qc sc (A P R : crs QcS) : wf A = true -> wf R = true ->
+  galerkin_spec_ok sc A P R (sort_rows (coarse_op_of sc A P R)) = true.
+Proof. exact (galerkin_spec_ok_model QcS_ring QcS_eqb sc A P R). Qed.
+Print Assumptions C03_galerkin_oracle_accepts_model_Qc.
+
+(* non-vacuity: the oracle accepts the dump of the concrete hierarchy exH and rejects it as soon
+   as the scaling is wrong *)
+Example C03_example_dump_oracle :
+  dump_ok 1 true true None (show_hier exH) = true /\
+  decrease_ok (show_hier exH) = true /\
+  dump_ok 1 true true (Some (exq 2)) (show_hier exH) = false.
+Proof. vm_compute. auto. Qed.
